@@ -123,6 +123,10 @@ class C05(vlib.Check):
             for op in c["ops"]:
                 self.count("op:" + op["op"] + (":fault" if op.get("fault") else ""))
             yield c
+        for _ in range(10 if self.tier == "quick" else 150):
+            c = dbgen.gen_colorder(self.rng)
+            self.count("columns-declared-in-different-orders")
+            yield c
         yield from self.gen_zero_cases()
 
     def gen_zero_cases(self):
